@@ -976,6 +976,7 @@ fn corrupt_case(rng: &mut Rng, ci: usize, out: &mut Sink, findings: bool) {
     out.mark_case(format!("openpath corrupt case {ci}"));
     let Some((base, good, kvs)) = corrupt_base(&format!("cb{ci}")) else {
         out.fail(format!("C10 openpath corrupt case {ci}: could not build the base directory"));
+        let _ = std::fs::remove_dir_all(scratch(&format!("cb{ci}")));
         return;
     };
     let dbg = cfg!(debug_assertions) as u8;
@@ -1071,6 +1072,41 @@ pub fn run(seed: u64, cases: usize, out: &mut Sink) {
 pub fn run_findings(seed: u64, out: &mut Sink) {
     let mut rng = Rng::new(seed ^ 0x0937);
     corrupt_case(&mut rng, 0, out, true);
+    // a ONE-key store whose `ln` file lost its leaf page: `compute_root_node` does not look at the completion's result
+    out.mark_case("openpath findings: one key, ln truncated to the nil page".into());
+    let dir = scratch("ln1");
+    let _ = std::fs::remove_dir_all(&dir);
+    let mk = |dir: &str| {
+        let mut o = Options::new();
+        o.path(dir);
+        o.hashtable_buckets(64);
+        o.preallocate_ht(false);
+        o
+    };
+    let built = catch_unwind(AssertUnwindSafe(|| -> anyhow::Result<[u8; 32]> {
+        let db = Db::open(mk(&dir))?;
+        let mut view = BTreeMap::new();
+        commit(&db, &mut view, vec![([0x42u8; 32], Some(vec![1u8; 40]))])?;
+        Ok(db.root().into_inner())
+    }));
+    if let Ok(Ok(good_root)) = built {
+        std::fs::OpenOptions::new().write(true).open(format!("{dir}/ln")).unwrap().set_len(4096).unwrap();
+        match catch_unwind(AssertUnwindSafe(|| Db::open(mk(&dir)).map(|db| db.root().into_inner()))) {
+            Ok(Ok(r)) => {
+                out.count("ln_truncated_open_ok");
+                if r != good_root {
+                    out.count("ln_truncated_open_ok_wrong_root");
+                    out.fail(format!("C10 openpath: ln truncated below the only leaf: Nomt::open returns Ok with root {} (committed root {}) — the failed leaf read is not reported", hex(&r), hex(&good_root)));
+                }
+            }
+            Ok(Err(_)) => out.count("ln_truncated_open_err"),
+            Err(_) => {
+                out.count("ln_truncated_open_panic");
+                out.fail("C10 openpath: ln truncated below the only leaf: Nomt::open PANICS (compute_root_node ignores the failed read and parses the unfilled page)".into());
+            }
+        }
+    }
+    let _ = std::fs::remove_dir_all(&dir);
     // Options::hashtable_buckets(0) through the public API
     out.mark_case("openpath findings: create with hashtable_buckets(0)".into());
     let dir = scratch("hb0");
